@@ -10,7 +10,7 @@ canaries in live blocks are re-checked.
 TLC replays every history on AllocAbs."""
 import os, json, concurrent.futures as cf
 from vlib.common import *
-from vlib import tv, conc
+from vlib import tv, conc, fe
 
 LEVEL = "model_checking"
 SP = os.path.join(SPECS, "mem")
@@ -77,6 +77,24 @@ def run(ev, vd):
         sig = dict(component="alloc:" + heap, op=last["ev"])
         vd.violation(sig, "%s (mode %s, threads %d): event %s is not allowed by AllocAbs (block not large enough / misaligned / overlapping a live "
                      "block / null / corrupted / leaked)" % (heap, rs["mode"], rs["threads"], json.dumps(last)), dict(reset=rs, execution=exn[-200:]))
+    # the per-iteration allocator inside the deterministic executor with a local state kept between the two passes: the
+    # state, its buffer and what the commit pass allocates must stay intact and disjoint (ForEachAbs rejects 'allocbad')
+    trd, resd, hangs = fe.campaign(ev, ["foreach_d"], [("ctl", "C", None), ("free", "F", None)], "c09", env={"VERIF_FD_VARIANT": "2"})
+    dexecs = sum(1 for line in open(trd) if conc.is_reset(line))
+    ev.cov["deterministic_local_state_executions"] = dexecs
+    other = {}
+    for g, info in sorted(resd["rejects"]):
+        reason = (info or "").strip('"')
+        if reason not in ("allocbad", "crash"):
+            other[reason] = other.get(reason, 0) + 1     # belongs to C01 / C02 / C07, reported there
+            continue
+        rs, exn = conc.context(trd, g)
+        vd.violation(dict(component="alloc:per-iteration/deterministic", op=reason),
+                     "deterministic for_each with local_state and per_iter_alloc (threads %d, mode %s): %s: a block of the per-iteration allocator was "
+                     "handed out again while still live (or the loop crashed); last event %s" % (rs["threads"], rs["mode"], reason, json.dumps(exn[-1])),
+                     dict(reset=rs, execution=exn[-200:]))
+    ev.cov["traces_validated_against_impl"] += dexecs - len(resd["rejects"])
+    ev.cov["rejections_belonging_to_other_properties"] = other
     ev.assumptions += ["NUMA node placement is not observable here (single node)", "page-pool pages carry a canary in their first 4 KB only",
                        "per-iteration allocations inside for_each are checked in C02's harness", "real schedules of the concurrent mixes are sampled"]
     ev.cov["engines"] = ["mc", "seqreplay", "free", "ctl", "tv"]
